@@ -295,8 +295,8 @@ def r5_self_index(text, log, field="0", **kw):
 
 # --- generic literal token-sequence replacement (used for R7/R9-style renamings, always listed) -------
 def tok_replace(text, log, rule="RX", frm=None, to=None, **kw):
-    want = [t for t in Src(frm).toks if t[0] not in ("ws", "comment")]
-    want = [t[1] for t in want]
+    from .rustlex import lex
+    want = [t[1] for t in lex(frm) if t[0] not in ("ws", "comment")]
 
     def step(t):
         s = Src(t)
@@ -304,7 +304,7 @@ def tok_replace(text, log, rule="RX", frm=None, to=None, **kw):
             if s.seq(p, *want):
                 return _edit(t, s, p, p + len(want) - 1, to)
         return None
-    if to is not None and Src(to).code and [x[1] for x in Src(to).toks if x[0] not in ("ws", "comment")][:len(want)] == want:
+    if to is not None and [x[1] for x in lex(to) if x[0] not in ("ws", "comment")][:len(want)] == want:
         raise Undecided("tok_replace would loop: %r -> %r" % (frm, to))
     return _fix(text, step, log, rule)
 
